@@ -1,6 +1,8 @@
 """Sidecar contracts of Python functions (pyvc)."""
 from __future__ import annotations
 
+import ast
+
 import z3
 
 from ..cxx import model as M
@@ -295,6 +297,7 @@ leaf_of = z3.Function('leaf_of_flatten', Ref, Int, Ref)      # k-th leaf of flat
 
 class TreespecVocabulary(PyContract):
     """Treespec objects are opaque references with the observers proved on the C++ side (getters, Compose, Unflatten)."""
+    count_exc = 'ValueError'      # class under which a leaf-count mismatch of unflatten is reported to the contract
 
     def attribute(self, eng, st, base, attr):
         if is_z3(base) and base.sort() == Ref:
@@ -330,7 +333,7 @@ class TreespecVocabulary(PyContract):
         s_bad = st.clone()
         eng.assume(s_bad, z3.Not(ok))
         if eng.feasible(s_bad):
-            eng.throw(s_bad, 'ValueError', line, 'leaf count')
+            eng.throw(s_bad, self.count_exc, line, 'leaf count')
         eng.assume(st, ok)
         return StructV('unflat', (('spec', spec), ('seq', seq)))
 
@@ -401,4 +404,439 @@ class TreeTranspose(TreespecVocabulary):
         out.append(('each-subtree-has-one-value-per-outer-leaf', z3.Implies(rng, col.len == m)))
         out.append(('value-at-(inner j, outer i)-is-input-value-at-(outer i, inner j)',
                     z3.Implies(rng, col.at(k) == leaf_of(tree, k * n + j))))
+        return out
+
+
+# ======================================================================================================================
+# C05 / C09 / C10: the map family of optree/ops.py against the proved engine contracts
+#
+# Vocabulary (uninterpreted; each symbol is the *proved* C++ contract read at the Python boundary):
+#   treespec_of(tree, is_leaf, none_is_leaf, namespace)   the treespec _C.flatten / tree_structure returns
+#   leaf_of(tree, k)                                       k-th leaf of that flatten (k < num_leaves)
+#   path_of(tree, k) / accessor_of(spec, k)                k-th path / accessor (Paths / Accessors: one per leaf, in leaf order)
+#   up_to(spec, tree, k)                                   k-th subtree of spec.flatten_up_to(tree) (FlattenUpTo: exactly
+#                                                          num_leaves(spec) results, slot k = leaf position k)
+# A call of the user function is a structured value  call(f, <args>)  - what the function computes is arbitrary.
+
+treespec_of = z3.Function('treespec_of', Ref, Ref, Bool, Str, Ref)
+path_of = z3.Function('path_of_flatten', Ref, Int, Ref)
+accessor_of = z3.Function('accessor_of', Ref, Int, Ref)
+up_to = z3.Function('flatten_up_to', Ref, Ref, Int, Ref)
+rest_at = z3.Function('rests_at', Int, Ref)
+
+
+class MapVocabulary(TreespecVocabulary):
+    module = 'optree/ops.py'
+    first = ()                    # extra leading argument sequences of the user function: 'path' | 'accessor'
+    count_exc = 'ValueError(unflatten-leaf-count)'   # never documented: the wrappers must hand unflatten exactly num_leaves values
+    returns_tree = False          # the in-place variants return their first tree argument
+
+    def setup(self, eng, st, fn):
+        super().setup(eng, st, fn)
+        if fn.args.vararg is not None:
+            self.R = z3.Int('number_of_rests')
+            st.facts.append(self.R >= 0)
+            st.env.vars[fn.args.vararg.arg] = SeqV(self.R, lambda i: rest_at(i))
+        st.ghost['forced'] = ()
+
+    def param(self, eng, st, name):
+        if name == 'none_is_leaf':
+            return z3.Const(name, Bool)
+        return z3.Const(name, Ref)
+
+    def global_name(self, eng, st, name):
+        if name in ('itertools', 'functools'):
+            return OpaqueV('module:' + name)
+        if name == 'deque':
+            return BuiltinV('deque')
+        return super().global_name(eng, st, name)
+
+    def attribute(self, eng, st, base, attr):
+        if is_z3(base) and base.sort() == Ref and attr in ('accessors', 'paths', 'broadcast_to_common_suffix'):
+            return BoundV(base, attr)
+        return super().attribute(eng, st, base, attr)
+
+    # -- the options of the function under contract ------------------------------------------------------------
+    def opts(self, st_or_entry):
+        env = st_or_entry.env
+        g = lambda nm, d: env.get(nm) if env.lookup(nm) is not None else d
+        return g('is_leaf', PYNONE), g('none_is_leaf', z3.BoolVal(False)), g('namespace', EMPTY)
+
+    def flatten_model(self, eng, st, tree, is_leaf, nil, ns, line, what):
+        entry_is_leaf, entry_nil, entry_ns = self.opts(self.entry)
+        eng.oblige(st, 'III', f'{what}:forwards-is_leaf', eng.identical(is_leaf, entry_is_leaf), line)
+        eng.oblige(st, 'III', f'{what}:forwards-none_is_leaf', eng.truth(st, nil) == eng.truth(st, entry_nil), line)
+        eng.oblige(st, 'III', f'{what}:forwards-namespace', ns_str(ns) == ns_str(entry_ns), line)
+        t = treespec_of(tree, is_leaf if is_z3(is_leaf) else PYNONE, eng.truth(st, nil), ns_str(ns))
+        st.facts.append(spec_num_leaves(t) >= 0)
+        st.facts.append(spec_nil(t) == eng.truth(st, nil))
+        s_exc = st.clone()
+        eng.throw(s_exc, 'FlattenError', line)
+        return t
+
+    def call(self, eng, st, f, args, kwargs, n, stars):
+        line = n.lineno
+        if isinstance(f, BoundV) and isinstance(f.obj, OpaqueV) and f.obj.tag == 'module:_C' and f.name in ('flatten', 'flatten_with_path'):
+            if len(args) != 4 or kwargs:
+                raise Unsupported('engine flatten call shape')
+            tree = args[0]
+            t = self.flatten_model(eng, st, tree, args[1], args[2], args[3], line, f'_C.{f.name}')
+            n_l = spec_num_leaves(t)
+            leaves = SeqV(n_l, lambda k, tree=tree: leaf_of(tree, k))
+            if f.name == 'flatten':
+                return [(st, TupV((leaves, t)))]
+            return [(st, TupV((SeqV(n_l, lambda k, tree=tree: path_of(tree, k)), leaves, t)))]
+        if isinstance(f, FuncV) and f.name == 'tree_structure':
+            t = self.flatten_model(eng, st, args[0], kwargs.get('is_leaf', PYNONE), kwargs.get('none_is_leaf', z3.BoolVal(False)),
+                                   kwargs.get('namespace', EMPTY), line, 'tree_structure')
+            return [(st, t)]
+        if isinstance(f, BoundV) and is_z3(f.obj) and f.obj.sort() == Ref:
+            spec = f.obj
+            if f.name == 'flatten_up_to':
+                s_exc = st.clone()
+                eng.throw(s_exc, 'ValueError', line, 'structure mismatch')
+                return [(st, SeqV(spec_num_leaves(spec), lambda k, spec=spec, tree=args[0]: up_to(spec, tree, k)))]
+            if f.name == 'accessors':
+                return [(st, SeqV(spec_num_leaves(spec), lambda k, spec=spec: accessor_of(spec, k)))]
+            if f.name == 'unflatten':
+                return [(st, self.unflatten(eng, st, spec, args[0], line))]
+        if isinstance(f, BoundV) and isinstance(f.obj, OpaqueV) and f.obj.tag == 'module:itertools' and f.name == 'repeat':
+            cnt = eng.as_int(args[1])
+            eng.oblige(st, 'II', 'repeat:count-non-negative', cnt >= 0, line)
+            return [(st, SeqV(cnt, lambda i, x=args[0]: x))]
+        if isinstance(f, BuiltinV) and f.name == 'map':
+            return [(st, self.map_model(eng, st, args[0], args[1:], stars, line, n))]
+        if isinstance(f, BuiltinV) and f.name == 'deque':
+            # deque(iterable, maxlen=0): consumes the whole iterable (all calls happen, in order) and keeps nothing
+            seq = eng.to_seq(st, args[0])
+            st.ghost['forced'] = st.ghost['forced'] + (seq,)
+            return [(st, OpaqueV('deque'))]
+        return None
+
+    def map_model(self, eng, st, f, plain, stars, line, node=None):
+        """map(f, p0, .., *rows, q0, ..): element k = call(f, p0[k], .., rows[0][k], .., q0[k], ..); stops at the shortest
+        sequence.  The obligation is that all argument sequences have the same length, so no leaf is dropped silently."""
+        if len(stars) > 1:
+            raise Unsupported('map with several starred arguments')
+        seqs = [eng.to_seq(st, a) for a in plain]
+        rows = eng.to_seq(st, stars[0]) if stars else None
+        nb = len(seqs)                       # number of plain sequences in front of the starred one
+        if rows is not None and node is not None:
+            flags = [isinstance(a, ast.Starred) for a in node.args[1:]]
+            nb = flags.index(True)
+        before, after = seqs[:nb], seqs[nb:]
+        if seqs:
+            ln = seqs[0].len
+        else:
+            s0 = st.clone()
+            eng.oblige(s0, 'III', 'map:at-least-one-argument-sequence', rows.len >= 1, line)
+            ln = eng.to_seq(st, rows.at(z3.IntVal(0))).len
+        for k_, p in enumerate(seqs[1:]):
+            eng.oblige(st, 'III', f'map:argument-sequence-{k_ + 1}-has-the-common-length', p.len == ln, line)
+        if rows is not None:
+            i = fresh('i_row', Int)
+            s1 = st.clone()
+            eng.assume(s1, z3.And(0 <= i, i < rows.len))
+            eng.oblige(s1, 'III', 'map:every-starred-sequence-has-the-common-length', eng.to_seq(s1, rows.at(i)).len == ln, line)
+        nrows = rows.len if rows is not None else z3.IntVal(0)
+        width = z3.IntVal(len(seqs)) + nrows
+
+        def elem(k, f=f):
+            def arg(i):
+                out = OpaqueV('none')
+                if rows is not None:
+                    out = eng.to_seq(st, rows.at(i - nb)).at(k)
+                for j in range(len(after) - 1, -1, -1):
+                    out = eng.ite(i == nb + nrows + j, after[j].at(k), out)
+                for j in range(nb - 1, -1, -1):
+                    out = eng.ite(i == j, before[j].at(k), out)
+                return out
+            return StructV('call', (('f', f), ('args', SeqV(width, arg))))
+        return SeqV(ln, elem)
+
+    # -- generic postcondition pieces ---------------------------------------------------------------------------------
+    def run_hook(self, entry):
+        self.entry = entry
+
+    def calls_post(self, eng, entry, seq, T, tree):
+        """seq = the sequence of user-function calls; one per leaf of `tree`, in leaf order, on aligned arguments."""
+        func = entry.env.get('func')
+        n_l = spec_num_leaves(T)
+        k, i = z3.Ints('k_leaf i_arg')
+        out = [('one-call-per-leaf', seq.len == n_l)]
+        el = seq.at(k)
+        if not (isinstance(el, StructV) and el.kind == 'call'):
+            return out + [('elements-are-calls-of-func', z3.BoolVal(False))]
+        rng = z3.And(0 <= k, k < n_l)
+        out.append(('calls-the-given-function', z3.Implies(rng, eng.identical(el.get('f'), func))))
+        args = el.get('args')
+        nf = len(self.first)
+        out.append(('argument-count', z3.Implies(rng, args.len == nf + 1 + self.R)))
+        for j, what in enumerate(self.first):
+            exp = path_of(tree, k) if what == 'path' else accessor_of(T, k)
+            out.append((f'argument-{j}-is-the-{what}-of-leaf-k', z3.Implies(rng, args.at(z3.IntVal(j)) == exp)))
+        out.append(('leaf-argument-is-the-k-th-leaf-of-tree', z3.Implies(rng, args.at(z3.IntVal(nf)) == leaf_of(tree, k))))
+        out.append(('rest-arguments-are-the-aligned-subtrees-of-rests',
+                    z3.Implies(z3.And(rng, nf + 1 <= i, i < nf + 1 + self.R),
+                               args.at(i) == up_to(T, rest_at(i - nf - 1), k))))
+        return out
+
+    def raises(self, eng, st, entry):
+        return {'FlattenError': None, 'ValueError': None}
+
+
+class TreeMapLike(MapVocabulary):
+    def setup(self, eng, st, fn):
+        super().setup(eng, st, fn)
+        self.entry = st.clone()
+
+    def post(self, eng, st, entry, ret):
+        tree = entry.env.get('tree')
+        is_leaf, nil, ns = self.opts(entry)
+        T = treespec_of(tree, is_leaf, eng.truth(st, nil), ns_str(ns))
+        if self.returns_tree:
+            out = [('returns-the-input-tree', eng.identical(ret, tree)),
+                   ('the-map-is-consumed-exactly-once', z3.BoolVal(len(st.ghost['forced']) == 1))]
+            if len(st.ghost['forced']) != 1:
+                return out
+            return out + self.calls_post(eng, entry, st.ghost['forced'][0], T, tree)
+        if not (isinstance(ret, StructV) and ret.kind == 'unflat'):
+            return [('result-is-unflatten', z3.BoolVal(False))]
+        out = [('result-has-the-structure-of-tree', ret.get('spec') == T),
+               ('nothing-is-evaluated-eagerly', z3.BoolVal(len(st.ghost['forced']) == 0))]
+        return out + self.calls_post(eng, entry, ret.get('seq'), T, tree)
+
+
+def _mk(name, first=(), returns_tree=False):
+    cls = type('C_' + name, (TreeMapLike,), {'function': name, 'first': first, 'returns_tree': returns_tree})
+    return pycontract(cls)
+
+
+_mk('tree_map')
+_mk('tree_map_', returns_tree=True)
+_mk('tree_map_with_path', first=('path',))
+_mk('tree_map_with_path_', first=('path',), returns_tree=True)
+_mk('tree_map_with_accessor', first=('accessor',))
+_mk('tree_map_with_accessor_', first=('accessor',), returns_tree=True)
+
+
+# ---- broadcast wrappers (C09) ----------------------------------------------------------------------------------------
+
+bcs_of = z3.Function('broadcast_to_common_suffix', Ref, Ref, Ref)
+
+
+class BroadcastVocabulary(MapVocabulary):
+    """Adds: the proved contract of tree_map at its call sites (modular use), closures evaluated per element, trees built by
+    unflatten that are passed on as arguments (named by a fresh reference, remembered in ghost state)."""
+
+    def setup(self, eng, st, fn):
+        super().setup(eng, st, fn)
+        self.entry = st.clone()
+        self.R = z3.IntVal(0)
+        st.ghost['trees'] = ()
+        self._emitted = set()
+
+    def global_name(self, eng, st, name):
+        if name == 'object':
+            return BuiltinV('object')
+        return super().global_name(eng, st, name)
+
+    def flatten_model(self, eng, st, tree, is_leaf, nil, ns, line, what):
+        # the same call site is re-evaluated for every element skolem: keep one copy of its obligations
+        if (line, what) in self._emitted:
+            saved, eng.vcs = eng.vcs, []
+            try:
+                return super().flatten_model(eng, st, self.as_ref(st, tree), is_leaf, nil, ns, line, what)
+            finally:
+                eng.vcs = saved
+        self._emitted.add((line, what))
+        return super().flatten_model(eng, st, self.as_ref(st, tree), is_leaf, nil, ns, line, what)
+
+    def as_ref(self, st, v):
+        if isinstance(v, StructV) and v.kind == 'unflat':
+            for r, t in st.ghost['trees']:
+                if t is v:
+                    return r
+            r = fresh('built_tree', Ref)
+            st.ghost['trees'] = st.ghost['trees'] + ((r, v),)
+            return r
+        return v
+
+    def tree_of(self, st, r):
+        for r2, t in st.ghost['trees']:
+            if r2 is r or (is_z3(r) and r.eq(r2)):
+                return t
+        return None
+
+    def apply_closure(self, eng, st, f, args, node):
+        if not isinstance(f, FuncV):
+            return StructV('call', (('f', f), ('args', SeqV(z3.IntVal(len(args)), eng._const_seq(list(args))))))
+        s2 = st.clone()
+        r = eng.call_function(s2, f, list(args), {}, node)
+        if len(r) != 1:
+            raise Unsupported('forking closure')
+        return r[0][1]
+
+    def call(self, eng, st, f, args, kwargs, n, stars):
+        line = n.lineno
+        if isinstance(f, BuiltinV) and f.name == 'object':
+            return [(st, fresh('sentinel', Ref))]
+        if isinstance(f, BoundV) and f.name == 'broadcast_to_common_suffix' and is_z3(f.obj):
+            s_exc = st.clone()
+            eng.throw(s_exc, 'ValueError', line, 'conflict')
+            r = bcs_of(f.obj, args[0])
+            st.facts.append(spec_num_leaves(r) >= 0)
+            return [(st, r)]
+        if isinstance(f, BoundV) and f.name == 'flatten_up_to' and is_z3(f.obj):
+            args = [self.as_ref(st, args[0])]
+        if isinstance(f, FuncV) and f.name in ('tree_map', 'tree_map_') and not stars:
+            # contract of tree_map (proved above): unflatten(T, <func(leaf_k, up_to(T, rest_j, k)...)>_k), T from the options given
+            func, tree, rests = args[0], self.as_ref(st, args[1]), [self.as_ref(st, a) for a in args[2:]]
+            T = MapVocabulary.flatten_model(self, eng, st, tree, kwargs.get('is_leaf', PYNONE),
+                                            kwargs.get('none_is_leaf', z3.BoolVal(False)), kwargs.get('namespace', EMPTY),
+                                            line, f.name)
+            s_exc = st.clone()
+            eng.throw(s_exc, 'ValueError', line, 'structure mismatch')
+            seq = SeqV(spec_num_leaves(T), lambda k, T=T, tree=tree, rests=rests, func=func: self.apply_closure(
+                eng, st, func, [leaf_of(tree, k)] + [up_to(T, r, k) for r in rests], n))
+            if f.name == 'tree_map_':
+                st.ghost['forced'] = st.ghost['forced'] + (seq,)
+                return [(st, args[1])]
+            return [(st, StructV('unflat', (('spec', T), ('seq', seq))))]
+        return super().call(eng, st, f, args, kwargs, n, stars)
+
+    def map_model(self, eng, st, f, plain, stars, line, node=None):
+        if isinstance(f, FuncV) and not stars:
+            seqs = [eng.to_seq(st, a) for a in plain]
+            for k_, p in enumerate(seqs[1:]):
+                eng.oblige(st, 'III', f'map:argument-sequence-{k_ + 1}-has-the-common-length', p.len == seqs[0].len, line)
+            return SeqV(seqs[0].len, lambda k, seqs=seqs, f=f: self.apply_closure(eng, st, f, [s_.at(k) for s_ in seqs], node))
+        return super().map_model(eng, st, f, plain, stars, line, node)
+
+    def replicated(self, eng, entry, st, tree_struct, T, src_tree, target_of, tag):
+        """tree_struct = unflatten(T, < unflatten(S_k, <x_k, x_k, ..>) >_k) with x_k = k-th leaf of src_tree and
+        S_k = treespec (under the caller's options) of target_of(k)."""
+        is_leaf, nil, ns = self.opts(entry)
+        if not (isinstance(tree_struct, StructV) and tree_struct.kind == 'unflat'):
+            return [(f'{tag}:is-built-by-unflatten', z3.BoolVal(False))]
+        k, j = z3.Ints('k_leaf j_rep')
+        n_l = spec_num_leaves(T)
+        rng = z3.And(0 <= k, k < n_l)
+        out = [(f'{tag}:has-the-structure-of-its-operand', tree_struct.get('spec') == T),
+               (f'{tag}:one-subtree-per-operand-leaf', tree_struct.get('seq').len == n_l)]
+        el = tree_struct.get('seq').at(k)
+        if not (isinstance(el, StructV) and el.kind == 'unflat'):
+            return out + [(f'{tag}:subtrees-are-built-by-unflatten', z3.BoolVal(False))]
+        S = treespec_of(target_of(k), is_leaf, eng.truth(st, nil), ns_str(ns))
+        out.append((f'{tag}:subtree-k-has-the-structure-of-the-matching-subtree-under-the-callers-options',
+                    z3.Implies(rng, el.get('spec') == S)))
+        out.append((f'{tag}:subtree-k-has-one-value-per-leaf-of-that-structure', z3.Implies(rng, el.get('seq').len == spec_num_leaves(S))))
+        out.append((f'{tag}:every-value-of-subtree-k-is-the-k-th-leaf-of-the-operand',
+                    z3.Implies(z3.And(rng, 0 <= j, j < spec_num_leaves(S)), el.get('seq').at(j) == leaf_of(src_tree, k))))
+        return out
+
+
+@pycontract
+class TreeBroadcastPrefix(BroadcastVocabulary):
+    function = 'tree_broadcast_prefix'
+
+    def post(self, eng, st, entry, ret):
+        prefix, full = entry.env.get('prefix_tree'), entry.env.get('full_tree')
+        is_leaf, nil, ns = self.opts(entry)
+        T = treespec_of(prefix, is_leaf, eng.truth(st, nil), ns_str(ns))
+        return self.replicated(eng, entry, st, ret, T, prefix, lambda k: up_to(T, full, k), 'result')
+
+
+@pycontract
+class TreeBroadcastCommon(BroadcastVocabulary):
+    function = 'tree_broadcast_common'
+
+    def post(self, eng, st, entry, ret):
+        a, b = entry.env.get('tree'), entry.env.get('other_tree')
+        is_leaf, nil, ns = self.opts(entry)
+        Ta = treespec_of(a, is_leaf, eng.truth(st, nil), ns_str(ns))
+        Tb = treespec_of(b, is_leaf, eng.truth(st, nil), ns_str(ns))
+        if not (isinstance(ret, TupV) and len(ret.items) == 2):
+            return [('returns-a-pair', z3.BoolVal(False))]
+        trees = st.ghost['trees']
+        out = [('exactly-one-common-tree-is-built', z3.BoolVal(len(trees) == 1))]
+        if len(trees) != 1:
+            return out
+        CT, ct = trees[0]
+        C = bcs_of(Ta, Tb)
+        # the common suffix is symmetric up to node kinds / key order of positions where both operands have nodes, and such
+        # positions are never read through flatten_up_to of an operand's own treespec: either receiver order is accepted
+        out.append(('common-tree-has-the-common-suffix-structure-of-the-two-treespecs',
+                    z3.Or(ct.get('spec') == C, ct.get('spec') == bcs_of(Tb, Ta))))
+        out.append(('common-tree-has-num_leaves-placeholders', ct.get('seq').len == spec_num_leaves(ct.get('spec'))))
+        out += self.replicated(eng, entry, st, ret.items[0], Ta, a, lambda k: up_to(Ta, CT, k), 'first')
+        out += self.replicated(eng, entry, st, ret.items[1], Tb, b, lambda k: up_to(Tb, CT, k), 'second')
+        return out
+
+
+# ---- tree_transpose_map (C10) ------------------------------------------------------------------------------------------
+
+func_result = z3.Function('result_of_func_call', Int, Ref)     # the pytree returned by the k-th call of the user function
+
+
+@pycontract
+class TreeTransposeMap(BroadcastVocabulary):
+    """tree_transpose_map(func, tree, *rests, inner_treespec=None): func is called once per leaf of `tree` (outer structure,
+    m leaves) on aligned arguments; with inner = the given inner_treespec or else the structure of the first result
+    (n leaves), the result is  inner.unflatten(< outer.unflatten(< up_to(inner, result_k, j) >_k) >_j)  - the value at
+    (inner j, outer k) is the j-th subtree of the k-th result.  ValueError when m == 0 or n == 0."""
+    function = 'tree_transpose_map'
+
+    def setup(self, eng, st, fn):
+        super().setup(eng, st, fn)
+        self.R = z3.Int('number_of_rests')
+
+    def as_ref(self, st, v):
+        if isinstance(v, StructV) and v.kind == 'call':
+            return v.get('ref')
+        return super().as_ref(st, v)
+
+    def map_model(self, eng, st, f, plain, stars, line, node=None):
+        if isinstance(f, BoundV) and f.name == 'unflatten':
+            seqs = [eng.to_seq(st, a) for a in plain]
+            return SeqV(seqs[0].len, None, lazy=('map', f, tuple(seqs)))
+        seq = MapVocabulary.map_model(self, eng, st, f, plain, stars, line, node)
+        return SeqV(seq.len, lambda k, seq=seq: StructV('call', seq.at(k).fields + (('ref', func_result(k)),)))
+
+    def call(self, eng, st, f, args, kwargs, n, stars):
+        if isinstance(f, BuiltinV) and f.name == 'list' and args and isinstance(args[0], SeqV) and args[0].lazy is None:
+            st.ghost['forced'] = st.ghost['forced'] + (args[0],)
+            return [(st, args[0])]
+        return super().call(eng, st, f, args, kwargs, n, stars)
+
+    def raises(self, eng, st, entry):
+        return {'FlattenError': None, 'ValueError': None}
+
+    def post(self, eng, st, entry, ret):
+        tree, given = entry.env.get('tree'), entry.env.get('inner_treespec')
+        is_leaf, nil, ns = self.opts(entry)
+        nilb = eng.truth(st, nil)
+        T = treespec_of(tree, is_leaf, nilb, ns_str(ns))
+        inner = z3.If(given == PYNONE, treespec_of(func_result(0), is_leaf, nilb, ns_str(ns)), given)
+        m, n_in = spec_num_leaves(T), spec_num_leaves(inner)
+        out = [('no-error-implies-both-structures-have-leaves', z3.And(m > 0, n_in > 0)),
+               ('func-is-applied-exactly-once-per-leaf', z3.BoolVal(len(st.ghost['forced']) == 1))]
+        if len(st.ghost['forced']) != 1:
+            return out
+        out += self.calls_post(eng, entry, st.ghost['forced'][0], T, tree)
+        if not (isinstance(ret, StructV) and ret.kind == 'unflat'):
+            return out + [('result-is-inner-unflatten', z3.BoolVal(False))]
+        out.append(('result-has-the-inner-structure', ret.get('spec') == inner))
+        seq = ret.get('seq')
+        out.append(('one-subtree-per-inner-leaf', seq.len == n_in))
+        j, k = z3.Ints('j_inner k_outer')
+        el = seq.at(j)
+        if not (isinstance(el, StructV) and el.kind == 'unflat'):
+            return out + [('subtrees-are-outer-unflatten', z3.BoolVal(False))]
+        rng = z3.And(0 <= j, j < n_in, 0 <= k, k < m)
+        out.append(('each-subtree-has-the-outer-structure', z3.Implies(rng, el.get('spec') == T)))
+        col = eng.to_seq(st, el.get('seq'))
+        out.append(('each-subtree-has-one-value-per-outer-leaf', z3.Implies(rng, col.len == m)))
+        out.append(('value-at-(inner j, outer k)-is-the-j-th-subtree-of-the-k-th-result',
+                    z3.Implies(rng, col.at(k) == up_to(inner, func_result(k), j))))
         return out
